@@ -11,6 +11,7 @@ func init() {
 		Thorough:   all("./..."),
 		Run: func(c *Ctx) {
 			c.ruleLazyIndex("R-LAZY-INDEX")
+			c.ruleLazyIndexExclusive("R-LAZY-INDEX-EXCLUSIVE")
 			c.ruleLazyPassthrough("R-LAZY-PASSTHROUGH")
 			c.ruleDecodeSiblings("R-DECODE-SIBLINGS")
 			c.ruleLazyFieldParity("R-LAZY-FIELD-PARITY")
